@@ -7,7 +7,7 @@ hole set `H`), in which every position in `K` is a known instruction start `≤ 
 of `m` keeps the first `k` bytes, only appends labels, re-establishes `Inv H`, and its result
 satisfies `Q`.
 -/
-namespace Cao.Compiler
+namespace Cao.Compiler.Wf
 open Cao Cao.Bytecode
 
 structure Rel (k : Nat) (s s' : CState) : Prop where
@@ -192,18 +192,18 @@ macro_rules | `(tactic| tr_prim) => `(tactic| with_reducible exact validateVarNa
 
 macro "nocls" : tactic => `(tactic| (intro h; exact absurd h (by decide)))
 
-theorem OperOK.plain {H : Nat → Prop} {s : CState} {p : Nat} {o : UInt8} {bs : List UInt8}
+theorem _root_.Cao.Compiler.OperOK.plain {H : Nat → Prop} {s : CState} {p : Nat} {o : UInt8} {bs : List UInt8}
     (hc : constrained o = false) (ht : ∃ t ∈ s.trace, t.1 = p) : OperOK H s p o bs :=
   OperOK.of_unconstrained hc fun _ => ht
 
-theorem OperOK.mk_slot {H : Nat → Prop} {s : CState} {p : Nat} {o : UInt8} {x : Nat}
+theorem _root_.Cao.Compiler.OperOK.mk_slot {H : Nat → Prop} {s : CState} {p : Nat} {o : UInt8} {x : Nat}
     (hs : isSlot o = true) (ht : ∃ t ∈ s.trace, t.1 = p) (hx : x < 255) :
     OperOK H s p o (le32 (UInt32.ofNat x)) := by
   simp only [isSlot, Bool.or_eq_true, beq_iff_eq] at hs
   rcases hs with ((hs | hs) | hs) | hs <;> subst hs <;>
   exact ⟨fun _ => ht, by nocls, by nocls, by nocls, by nocls, fun _ => ⟨x, hx, rfl⟩, by nocls, by nocls, by nocls⟩
 
-theorem OperOK.mk_jump {H : Nat → Prop} {s : CState} {p : Nat} {o : UInt8} {bs : List UInt8}
+theorem _root_.Cao.Compiler.OperOK.mk_jump {H : Nat → Prop} {s : CState} {p : Nat} {o : UInt8} {bs : List UInt8}
     (hs : isJump o = true) (ht : ∃ t ∈ s.trace, t.1 = p)
     (hj : H p ∨ ∃ t, bs = le32 (UInt32.ofNat t) ∧ Start s.bytecode t ∧ t ≤ s.bytecode.size) :
     OperOK H s p o bs := by
@@ -211,31 +211,31 @@ theorem OperOK.mk_jump {H : Nat → Prop} {s : CState} {p : Nat} {o : UInt8} {bs
   rcases hs with (hs | hs) | hs <;> subst hs <;>
   exact ⟨fun _ => ht, fun _ => hj, by nocls, by nocls, by nocls, by nocls, by nocls, by nocls, by nocls⟩
 
-theorem OperOK.mk_str {H : Nat → Prop} {s : CState} {p : Nat} {o : UInt8} {off : Nat}
+theorem _root_.Cao.Compiler.OperOK.mk_str {H : Nat → Prop} {s : CState} {p : Nat} {o : UInt8} {off : Nat}
     (hs : isStr o = true) (ht : ∃ t ∈ s.trace, t.1 = p) (h : StrAt s.data off) :
     OperOK H s p o (le32 (UInt32.ofNat off)) := by
   simp only [isStr, Bool.or_eq_true, beq_iff_eq] at hs
   rcases hs with hs | hs <;> subst hs <;>
   exact ⟨fun _ => ht, by nocls, fun _ => ⟨off, rfl, h⟩, by nocls, by nocls, by nocls, by nocls, by nocls, by nocls⟩
 
-theorem OperOK.mk_fnp {H : Nat → Prop} {s : CState} {p : Nat} {bs : List UInt8}
+theorem _root_.Cao.Compiler.OperOK.mk_fnp {H : Nat → Prop} {s : CState} {p : Nat} {bs : List UInt8}
     (ht : ∃ t ∈ s.trace, t.1 = p) (h : ∃ e ∈ s.jumpTable, bs.take 4 = le32 e.2.1) :
     OperOK H s p op.functionPointer bs :=
   ⟨fun _ => ht, by nocls, by nocls, fun _ => h, by nocls, by nocls, by nocls, by nocls, by nocls⟩
 
-theorem OperOK.mk_clos {H : Nat → Prop} {s : CState} {p : Nat} {bs : List UInt8}
+theorem _root_.Cao.Compiler.OperOK.mk_clos {H : Nat → Prop} {s : CState} {p : Nat} {bs : List UInt8}
     (ht : ∃ t ∈ s.trace, t.1 = p) (h : ∃ l ∈ s.labels, bs.take 4 = le32 l.1) :
     OperOK H s p op.closure bs :=
   ⟨fun _ => ht, by nocls, by nocls, by nocls, fun _ => h, by nocls, by nocls, by nocls, by nocls⟩
 
-theorem OperOK.mk_glob {H : Nat → Prop} {s : CState} {p : Nat} {o : UInt8} {x : Nat}
+theorem _root_.Cao.Compiler.OperOK.mk_glob {H : Nat → Prop} {s : CState} {p : Nat} {o : UInt8} {x : Nat}
     (hs : isGlob o = true) (ht : ∃ t ∈ s.trace, t.1 = p) (hx : x < s.varIds.length) :
     OperOK H s p o (le32 (UInt32.ofNat x)) := by
   simp only [isGlob, Bool.or_eq_true, beq_iff_eq] at hs
   rcases hs with hs | hs <;> subst hs <;>
   exact ⟨fun _ => ht, by nocls, by nocls, by nocls, by nocls, by nocls, fun _ => ⟨x, hx, rfl⟩, by nocls, by nocls⟩
 
-theorem OperOK.mk_each {H : Nat → Prop} {s : CState} {p : Nat} {o : UInt8} {a b c d e : Nat}
+theorem _root_.Cao.Compiler.OperOK.mk_each {H : Nat → Prop} {s : CState} {p : Nat} {o : UInt8} {a b c d e : Nat}
     (hs : isEach o = true) (ht : ∃ t ∈ s.trace, t.1 = p)
     (ha : a < 255) (hb : b < 255) (hc : c < 255) (hd : d < 255) (he : e < 255) :
     OperOK H s p o (le32 (UInt32.ofNat a) ++ (le32 (UInt32.ofNat b) ++ (le32 (UInt32.ofNat c) ++
@@ -245,7 +245,7 @@ theorem OperOK.mk_each {H : Nat → Prop} {s : CState} {p : Nat} {o : UInt8} {a 
   exact ⟨fun _ => ht, by nocls, by nocls, by nocls, by nocls, by nocls, by nocls,
     fun _ => ⟨a, b, c, d, e, ha, hb, hc, hd, he, rfl⟩, by nocls⟩
 
-theorem OperOK.mk_reg {H : Nat → Prop} {s : CState} {p : Nat} {i f : UInt8}
+theorem _root_.Cao.Compiler.OperOK.mk_reg {H : Nat → Prop} {s : CState} {p : Nat} {i f : UInt8}
     (ht : ∃ t ∈ s.trace, t.1 = p) (hf : f.toNat ≤ 1) :
     OperOK H s p op.registerUpvalue [i, f] :=
   ⟨fun _ => ht, by nocls, by nocls, by nocls, by nocls, by nocls, by nocls, by nocls, fun _ => ⟨i, f, hf, rfl⟩⟩
@@ -279,17 +279,17 @@ theorem afterInstr_rel {k : Nat} {s : CState} (hk : k ≤ s.bytecode.size) (o : 
   show (s.bytecode ++ _)[i]? = _
   rw [Array.getElem?_append_left (by omega)]
 
-theorem Inv.afterInstr {H : Nat → Prop} {s : CState} {o : UInt8} {bs : List UInt8} (hI : Inv H s)
+theorem _root_.Cao.Compiler.Inv.afterInstr {H : Nat → Prop} {s : CState} {o : UInt8} {bs : List UInt8} (hI : Inv H s)
     (hsp : Gen.spanOf o = some (bs.length + 1))
     (hok : OperOK H (afterInstr s o bs) s.bytecode.size o bs) : Inv H (afterInstr s o bs) := by
-  refine hI.push (o := o) (bs := bs) rfl hsp ⟨#[], by simp [Compiler.afterInstr]⟩ rfl ?_ ?_ (Nat.le_refl _) rfl hok
-    (hI.aux.of_eq rfl rfl rfl rfl rfl (by simp [Compiler.afterInstr]))
+  refine hI.push (o := o) (bs := bs) rfl hsp ⟨#[], by simp [Wf.afterInstr]⟩ rfl ?_ ?_ (Nat.le_refl _) rfl hok
+    (hI.aux.of_eq rfl rfl rfl rfl rfl (by simp [Wf.afterInstr]))
   · intro t ht
-    simp only [Compiler.afterInstr, List.mem_append, List.mem_singleton] at ht
+    simp only [Wf.afterInstr, List.mem_append, List.mem_singleton] at ht
     rcases ht with ht | rfl
     · exact .inl ht
     · exact .inr rfl
-  · intro t ht; simp [Compiler.afterInstr, ht]
+  · intro t ht; simp [Wf.afterInstr, ht]
 
 /-- generic instruction unit -/
 theorem instr_tr {k : Nat} {K : Nat → Prop} {o : UInt8} {bs : List UInt8}
@@ -394,13 +394,13 @@ structure GAux (s : CState) : Prop where
   names : ∀ i, i < s.nextVar → ∃ n ∈ s.varNames, n.1 = idHash i
   namesEq : HInj s.nextVar → s.varNames.map (·.1) = (List.range s.nextVar).map idHash
 
-theorem Aux.gaux {s : CState} (h : Aux s) : GAux s := ⟨h.ids, h.nodup, h.names, h.namesEq⟩
+theorem _root_.Cao.Compiler.Aux.gaux {s : CState} (h : Aux s) : GAux s := ⟨h.ids, h.nodup, h.names, h.namesEq⟩
 
 theorem GAux.len {s : CState} (h : GAux s) : s.varIds.length = s.nextVar := by
   have := congrArg List.length h.ids
   simpa using this
 
-theorem HInj.mono {n m : Nat} (h : HInj m) (hnm : n ≤ m) : HInj n :=
+theorem _root_.Cao.Compiler.HInj.mono {n m : Nat} (h : HInj m) (hnm : n ≤ m) : HInj n :=
   fun i j hi hj e => h i j (by omega) (by omega) e
 
 /-- the state components `globalId` does not touch -/
@@ -726,7 +726,7 @@ theorem fnpInstr_tr {k : Nat} {K : Nat → Prop} (name : String) :
 def core3 (s : CState) :=
   (s.bytecode, s.data, s.labels, s.trace, s.varIds, s.varNames, s.nextVar, s.jumpTable)
 
-theorem Inv.set_loc {H : Nat → Prop} {s s' : CState} (hI : Inv H s) (hc : core3 s' = core3 s)
+theorem _root_.Cao.Compiler.Inv.set_loc {H : Nat → Prop} {s s' : CState} (hI : Inv H s) (hc : core3 s' = core3 s)
     (hl : LocOK s') : Inv H s' := by
   simp only [core3, Prod.mk.injEq] at hc
   obtain ⟨h1, h2, h3, h4, h5, h6, h7, h8⟩ := hc
@@ -957,10 +957,10 @@ macro_rules | `(tactic| tr_prim) => `(tactic| with_reducible exact bindLoopVar_t
 
 /-! ## holes and back-patching -/
 
-theorem Ext.keep {k : Nat} {s s' : CState} (h : Ext k s s') {p : Nat} (hp : p < k) :
+theorem _root_.Cao.Compiler.Ext.keep {k : Nat} {s s' : CState} (h : Ext k s s') {p : Nat} (hp : p < k) :
     s'.bytecode.getD p 0 = s.bytecode.getD p 0 := getD_of_getElem? (h.pref p hp)
 
-theorem Ext.keepStart {k : Nat} {s s' : CState} (h : Ext k s s') {t : Nat} (ht : t ≤ k)
+theorem _root_.Cao.Compiler.Ext.keepStart {k : Nat} {s s' : CState} (h : Ext k s s') {t : Nat} (ht : t ≤ k)
     (hs : Start s.bytecode t) : Start s'.bytecode t :=
   hs.congr fun i _ hi => h.keep (by omega)
 
@@ -1447,4 +1447,4 @@ theorem processCard_tr (c : Card) : Blk (processCard c) := processCard_tr_all.1 
 theorem compileSubexprFrom_tr (i : Nat) (cs : List Card) : Blk (compileSubexprFrom i cs) :=
   processCard_tr_all.2.2 i cs
 
-end Cao.Compiler
+end Cao.Compiler.Wf
